@@ -49,6 +49,14 @@ fn successors(base: &RawMachine, addr: usize, ir: u8) -> Result<(Succ, u64), Str
                         catch(|| m.trigger_clock_edge()).map_err(|p| format!("panic at addr {:03X} ir {:02X} byte {:02X}: {}", addr, ir, b, p))?;
                         evals += 1;
                         let s = m.verif_snapshot();
+                        // "stays within the routine of the fetched opcode": the byte loaded at a fetch governs
+                        // the routine, also when it halts the machine (0x00 / 0x01)
+                        if loads_ir(addr) && s.instruction_register != b {
+                            return Err(format!("ROUTINE fetch word {:03X} loaded byte {:02X} but the instruction register holds {:02X} (stale IR {:02X}): the sequencer leaves the fetch into the routine of another opcode", addr, b, s.instruction_register, ir));
+                        }
+                        if (s.micro_address >> 5) as u8 != s.instruction_register >> 4 {
+                            return Err(format!("ROUTINE from {:03X}/{:02X} (byte {:02X}): successor address {:03X} is outside the routine of IR {:02X}", addr, ir, b, s.micro_address, s.instruction_register));
+                        }
                         out.insert((s.micro_address, s.instruction_register, m.state() != State::Running));
                     }
                 }
@@ -89,7 +97,8 @@ pub fn run(ctx: &Ctx) -> Evidence {
                     seen.insert(*n, s);
                 }
                 Err(p) => {
-                    ev.violation("graph", "c09:panic", p, json!({"addr": n.0, "ir": n.1}));
+                    let sig = if p.starts_with("ROUTINE") { "c09:leaves-routine-of-fetched-opcode" } else { "c09:panic" };
+                    ev.violation("graph", sig, p, json!({"addr": n.0, "ir": n.1}));
                     seen.insert(*n, BTreeSet::new());
                 }
             }
